@@ -274,6 +274,30 @@ for need in ("const NEARBY_REGISTER_DISTANCE: u64 = 1 << 12;", "const LOW_ADDRES
     if need not in ps:
         die("calculate_heuristics changed shape, expected: " + need)
 
+# ---- 10. processor.rs MinidumpInfo::new: which streams are required, which are degraded to a default on error
+mi = norm(fn_body(pr, r"pub fn new<T: Deref<Target = \[u8\]> \+ 'a>\(", "MinidumpInfo::new"))
+stream_handling = []          # (stream type name, None | error name), in source order
+for m in re.finditer(r"dump\s*\.get_stream::<(\w+)>\(\)|dump\.get_memory\(\)", mi):
+    name = m.group(1) or "UnifiedMemoryList"
+    tail = mi[m.end():m.end() + 160].lstrip()
+    head = mi[max(0, m.start() - 40):m.start()]
+    req = re.match(r"\.or\(Err\(ProcessError::(\w+)\)\)\?;", tail)
+    if req:
+        stream_handling.append((name, req.group(1)))
+    elif (re.match(r"\.ok\(\)", tail) or re.match(r"\.unwrap_or_default\(\)", tail)
+          or re.match(r"\.unwrap_or_else\(\|_\| %s::default\(\)\)" % name, tail)
+          or (head.rstrip().endswith("match") and re.match(r"\{ Ok\(module_list\) => module_list, Err\(_\) => %s::new\(\), \}" % name, tail))
+          or (tail.startswith("; let (dump_thread_id, requesting_thread_id) = if let Ok(info) = breakpad_info {")
+              and "} else { (None, None) };" in mi[m.end():m.end() + 260])):
+        stream_handling.append((name, None))
+    else:
+        die("MinidumpInfo::new: unrecognised handling of the %s stream: ...%s" % (name, tail[:100]))
+if len(set(n for n, _ in stream_handling)) != len(stream_handling):
+    die("MinidumpInfo::new: a stream is read twice")
+if not stream_handling:
+    die("MinidumpInfo::new: no stream reads found")
+errs = sorted(set(e for _, e in stream_handling if e))
+
 ALL = ["CpuX86", "CpuAmd64", "CpuArm", "CpuArm64", "CpuArm64Old", "CpuMips", "CpuPpc", "CpuPpc64", "CpuSparc", "CpuUnknown"]
 out = """(* GENERATED by translate/c03_sites.py from minidump-unwind/src/lib.rs, minidump-processor/src/{op_analysis,processor,process_state}.rs,
    minidump/src/minidump.rs, breakpad-symbols/src/sym_file/{mod,types}.rs — do not edit.
@@ -301,8 +325,16 @@ Definition gen_stack_probe_bytes : Z := %d.
    len = NEARBY_REGISTER.len(); usize `-` is chk_sub (traps in a debug build, wraps in release) *)
 Definition gen_nearby_table_len : Z := %d.
 Definition gen_nearby_index (p : profile) (n len : Z) : outcome Z := %s.
+(* MinidumpInfo::new (round 5): every `dump.get_stream::<X>()` / `dump.get_memory()` in source order, with the ProcessError a failed
+   read is turned into (`.or(Err(ProcessError::E))?`) or None when the failure is degraded to a default / None
+   (`.ok()`, `.unwrap_or_default()`, `.unwrap_or_else(|_| X::default())`, `match .. { Err(_) => X::new() }`, `if let Ok(..) .. else ..`) *)
+Inductive gen_stream := %s.
+Inductive gen_process_error := %s.
+Definition gen_stream_handling : list (gen_stream * option gen_process_error) := [%s].
 """ % (" | ".join("G" + c for c in ALL), "; ".join("G" + c for c in unwinders), guard_max, inline_start,
-       want_a, want_b, want_a, want_b, ctx_a, ctx_b, ctx_a, ctx_b, fb_a, fb_b, fb_a, fb_b, probe_bytes * 8, probe_bytes, nearby_src, nearby_len, nearby_gallina)
+       want_a, want_b, want_a, want_b, ctx_a, ctx_b, ctx_a, ctx_b, fb_a, fb_b, fb_a, fb_b, probe_bytes * 8, probe_bytes, nearby_src, nearby_len, nearby_gallina,
+       " | ".join("GS_" + n for n, _ in stream_handling), " | ".join("GE_" + e for e in errs),
+       "; ".join("(GS_%s, %s)" % (n, "Some GE_" + e if e else "None") for n, e in stream_handling))
 os.makedirs(outdir, exist_ok=True)
 path = os.path.join(outdir, "C03Sites.v")
 old = open(path).read() if os.path.exists(path) else None
